@@ -42,6 +42,16 @@ func (ch *chain) govACL(v *chainView) govtypes.ACL {
 	return acl
 }
 
+// aclOwner looks the owner of a parameter up in an ACL value (own loop, independent of ACL.GetOwner)
+func aclOwner(acl govtypes.ACL, key string) sdk.Address {
+	for _, p := range acl {
+		if p.Key == key {
+			return p.Addr
+		}
+	}
+	return nil
+}
+
 func (ch *chain) daoOwner(v *chainView) sdk.Address {
 	var a sdk.Address
 	if bz, ok := v.Raw[sdk.ParamsKey.Name()]["gov/daoOwner"]; ok {
@@ -82,7 +92,7 @@ func (o *c17Oracle) after(ch *chain, ci *callInfo) *Violation {
 	accepted := ci.Deliver.Code == 0
 	switch m := ci.Built.Msg.(type) {
 	case govtypes.MsgChangeParam:
-		owner := ch.govACL(before).GetOwner(m.ParamKey)
+		owner := aclOwner(ch.govACL(before), m.ParamKey)
 		isOwner := len(owner) > 0 && bytes.Equal(owner, m.FromAddress)
 		if !isOwner {
 			if accepted {
@@ -131,7 +141,7 @@ func (o *c17Oracle) after(ch *chain, ci *callInfo) *Violation {
 		if wellFormed && (m.ParamKey == "gov/acl") {
 			oldACL, newACL := ch.govACL(before), ch.govACL(after)
 			for _, k := range simParamKeys {
-				if !bytes.Equal(oldACL.GetOwner(k), newACL.GetOwner(k)) {
+				if !bytes.Equal(aclOwner(oldACL, k), aclOwner(newACL, k)) {
 					o.handovers[k] = true
 				}
 			}
@@ -140,7 +150,7 @@ func (o *c17Oracle) after(ch *chain, ci *callInfo) *Violation {
 			o.nt = true
 		}
 	case govtypes.MsgUpgrade:
-		owner := ch.govACL(before).GetOwner("gov/upgrade")
+		owner := aclOwner(ch.govACL(before), "gov/upgrade")
 		isOwner := len(owner) > 0 && bytes.Equal(owner, m.Address)
 		if !isOwner {
 			if accepted {
